@@ -424,7 +424,8 @@ def replay_main(args):
         part = parts[case["part"]]
         r = run_check(part, case)
         new = [f for f in r.findings if known_match(known, f, case) is None]
-        results.append({"path": path, "findings": r.findings, "new": new})
+        kids = [known_match(known, f, case)["id"] for f in r.findings if known_match(known, f, case) is not None]
+        results.append({"path": path, "findings": r.findings, "new": new, "known_ids": kids})
         for f in r.findings:
             print("  finding %s: %s" % (f["key"], f["msg"][:300]))
         if new:
@@ -463,24 +464,32 @@ def parent_main(args):
     violations = []  # (key, replay path, msg)
     known_hits = {}
 
-    # 1. committed regressions (one fresh process per prelude group)
+    # 1. committed regressions: one fresh process per recorded prelude (DESIGN 2.2)
     regs = sorted(glob.glob(os.path.join(HERE, "regressions", prop, "*.json")))
     reg_run = 0
     if regs and not args.part:
-        for i, path in enumerate(regs):
-            outp = os.path.join(scratch, "reg%d.json" % i)
-            p = subprocess.run([sys.executable, me, "--prop", prop, "--replay", path, "--out", outp],
-                               env=env, capture_output=True, text=True, timeout=3600)
-            if p.returncode not in (0, 1) or not os.path.exists(outp):
-                harness_errors.append("regression %s: rc=%s %s" % (path, p.returncode, p.stderr[-1500:]))
+        groups = {}
+        for path in regs:
+            try:
+                doc = json.load(open(path))
+                pre = (doc.get("case") or doc).get("prelude")
+            except Exception as e:
+                harness_errors.append("regression %s unreadable: %s" % (path, e))
                 continue
-            reg_run += 1
+            groups.setdefault(pre, []).append(path)
+        for i, (pre, paths) in enumerate(sorted(groups.items(), key=lambda kv: str(kv[0]))):
+            outp = os.path.join(scratch, "reg%d.json" % i)
+            p = subprocess.run([sys.executable, me, "--prop", prop, "--out", outp, "--replay"] + paths,
+                               env=env, capture_output=True, text=True, timeout=7200)
+            if p.returncode not in (0, 1) or not os.path.exists(outp):
+                harness_errors.append("regressions %s: rc=%s %s" % (paths, p.returncode, p.stderr[-1500:]))
+                continue
             for res in json.load(open(outp)):
+                reg_run += 1
                 for f in res["new"]:
-                    violations.append((f["key"], path, f["msg"]))
-                for f in res["findings"]:
-                    if f not in res["new"]:
-                        known_hits["(regression) " + f["key"]] = 1
+                    violations.append((f["key"], res["path"], f["msg"]))
+                for kid in res.get("known_ids", []):
+                    known_hits[kid] = known_hits.get(kid, 0) + 1
 
     # 2. shards
     procs = []
